@@ -208,8 +208,11 @@ def run_suite(exe, suite, seed, tier, prop, timeout):
 
 def run_model_part(requests):
     exe = os.path.join(LEAN, ".lake", "build", "bin", "drpcmodel")
-    p = subprocess.run([exe], input=("\n".join(requests) + "\n").encode(), stdout=subprocess.PIPE,
-                       stderr=subprocess.PIPE, timeout=3000)
+    try:
+        p = subprocess.run([exe], input=("\n".join(requests) + "\n").encode(), stdout=subprocess.PIPE,
+                           stderr=subprocess.PIPE, timeout=900)
+    except subprocess.TimeoutExpired:
+        return [], 124, "model driver timed out"
     out = p.stdout.decode(errors="replace").split("\n")
     if out and out[-1] == "":
         out.pop()
